@@ -95,7 +95,7 @@ var EnumFamilies = []*EnumFamily{
 		Cfgs: capCfgs([]int{1, 8}, []int{-1, 0, 1})},
 	{Name: "typed-header-bodies/numbers", Alpha: "a1 \t\r\n", LQ: 5, LT: 7,
 		Parsers:  []string{"ParseHdrLine+PHdrVals", "ParseHeaders+PHdrVals"},
-		Prefixes: []string{"CSeq:", "i:", "l:", "Expires:", "Content-Length:1"}, Suffixes: []string{"\r\nCSeq: 2 X\r\n\r\nX"},
+		Prefixes: []string{"CSeq:", "i:", "l:", "Expires:", "Content-Length:1", "l:1677721", "Content-Length: 00000000", "Expires:429496729", "CSeq:429496729"}, Suffixes: []string{"\r\nCSeq: 2 X\r\n\r\nX"},
 		Cfgs: capCfgs([]int{0, 8}, []int{-1})},
 	{Name: "first-line/request", Alpha: "aS \t\r\n2", LQ: 5, LT: 7,
 		Parsers:  []string{"ParseFLine"},
